@@ -123,6 +123,26 @@ func tempConsts(repo string, add func(string, int64, string)) error {
 	if a1 != a2 || k1 != k2 {
 		return fmt.Errorf("ioutil.go: TempFile and TempDir use different retry constants (%d/%d vs %d/%d): the model has one pair", a1, k1, a2, k2)
 	}
+	// does the function refuse a pattern that contains os.PathSeparator (as os.CreateTemp / os.MkdirTemp do)?
+	mentionsSeparator := func(fd *ast.FuncDecl) bool {
+		found := false
+		ast.Inspect(fd, func(n ast.Node) bool {
+			if se, ok := n.(*ast.SelectorExpr); ok && se.Sel.Name == "PathSeparator" {
+				found = true
+			}
+			return true
+		})
+		return found
+	}
+	s1, s2 := mentionsSeparator(tf), mentionsSeparator(td)
+	if s1 != s2 {
+		return fmt.Errorf("ioutil.go: only one of TempFile / TempDir checks the pattern for os.PathSeparator: the model has one switch")
+	}
+	rej := int64(0)
+	if s1 {
+		rej = 1
+	}
+	add("temp_rejects_separator", rej, "ioutil.go TempFile/TempDir: 1 iff a pattern containing os.PathSeparator is refused before anything is created")
 	add("temp_attempts", a1, "ioutil.go TempFile/TempDir: for i := 0; i < N; i++")
 	add("temp_reseed_after", k1, "ioutil.go TempFile/TempDir: reseed when nconflict > K")
 	return nil
